@@ -355,9 +355,10 @@ class Interp:
             w = e.width
             if w is None:
                 w = 32
-                if e.val >= (1 << 32) or (e.val >= (1 << 31) and W > 32):
-                    # an unsized decimal is a signed value of "at least 32 bits": tools differ beyond that
-                    self._note_x('unsized_literal_over_32_bits')
+                if e.val >= (1 << 31):
+                    # an unsized decimal is a *signed* value of "at least 32 bits": a literal that does not fit a signed
+                    # 32-bit integer is sized and signed differently by different tools (indeterminate, never judged)
+                    self._note_x('unsized_literal_over_31_bits')
                 v = e.val & _mask(32)
             else:
                 v = e.val
